@@ -34,6 +34,7 @@ def catalog(prog, tier):
         'match': lambda: [MF.vc_match(prog, ex, sp, w) for ex, sp, w in ((False, False, False), (True, False, False), (True, True, False), (False, False, True), (True, False, True))],
         'ne_levels': lambda: [NL.vc_ne_levels(prog, w, ex) for w in (False, True) for ex in (False, True)],
         'visited': lambda: [NL.vc_node_in_prev_ne(prog, k) for k in ('edge', 'node')],
+        'matcher_init': lambda: [NL.vc_matcher_init(prog)],
         'ne_depth': lambda: [NL.vc_ne_depth_bound(prog)],
         'ne_end': lambda: [OC.vc_ne_end(prog, k, f) for k, f in (('node', 'base'), ('edge', 'base'), ('edge', 'distance'))],
         'ne_inner': lambda: [OC.vc_ne_inner(prog, k, f) for k, f in (('node', 'base'), ('edge', 'base'), ('edge', 'distance'))],
